@@ -236,16 +236,23 @@ def scenarios(tier):
     # retry
     for o in (('E', 'S'), ('S', 'S')):
         res = {'i0': [o[0], 'S'], 'i1': ['S', 'S'], 'b': ['S']}
-        scn = ItemsScenario('retry-n2/%s' % ''.join(o),
-                            make_prog(2, None, retry={'count': 1,
-                                                      'delay': 0}),
-                            items=['i0', 'i1'], results=res)
-        jobs.append((scn, 1 if quick else 3, 40 if quick else 900, 1))
+        for conc in (None, 1):
+            scn = ItemsScenario('retry-n2/c%s/%s' % (conc, ''.join(o)),
+                                make_prog(2, conc, retry={'count': 1,
+                                                          'delay': 0}),
+                                items=['i0', 'i1'], concurrency=conc,
+                                results=res)
+            jobs.append((scn, 1 if quick else 3, 40 if quick else 900, 1))
     # rerun of the failed with-items task, reset on / off
-    for n, o in ((2, 'SE'), (2, 'ES'), (3, 'SES'), (3, 'SSE')):
+    for n, o in ((2, 'SE'), (2, 'ES'), (2, 'EE'), (3, 'SES'), (3, 'SSE'),
+                 (3, 'EES')):
         for menu in ('rerun', 'rerun_noreset'):
-            for conc in (None, 2):
-                if quick and conc and n == 3:
+            for conc in (None, 1, 2):
+                # (the task is started a second time with more items to
+                # run than the concurrency limit lets through at once)
+                if quick and conc == 2 and n == 3 and o != 'EES':
+                    continue
+                if conc == 1 and o in ('SES', 'SSE'):
                     continue
                 res = {'i%d' % k: [o[k], 'S'] for k in range(n)}
                 res['b'] = ['S']
